@@ -2,10 +2,9 @@
     the row-at-a-time [AggregateAccumulator] (sum_fold / agg_sum), [simd_sum_i64] and the streaming
     [simd_aggregate_i64] of the columnar path.
 
-    For each path: the Release profile returns the two's-complement wrap of the exact sum (so a
-    silent wrap happens exactly when some partial sum leaves i64), the Debug profile returns the
-    exact sum whenever it returns, and both profiles return the exact sum when no partial sum
-    (in the evaluation order of the code) overflows. *)
+    After the C24 fix commits: the accumulator adds with the CHECKED [+] (an out-of-range partial sum
+    makes the sum NULL: add_sql_values turns the error into NULL, and NULL is absorbing); the columnar
+    path accumulates in i128 and is exact for every column. *)
 From Coq Require Import ZArith List Bool Lia.
 From VibeSQL Require Import Base.LexOrd Value.SqlValue Mech.F64 Mech.Arith Mech.ArithLaws.
 Import ListNotations.
@@ -53,19 +52,26 @@ Fixpoint prefixes_fit (s : Z) (zs : list Z) : bool :=
   | z :: rest => fits_i64 (s + z) && prefixes_fit (s + z) rest
   end.
 
-(** the accumulator loop, on integers *)
-Fixpoint int_fold (p : profile) (s c : Z) (zs : list Z) : res (Z * Z) :=
+(** the accumulator loop on integers: [None] is the NULL the sum becomes after an out-of-range addition *)
+Fixpoint int_fold (p : profile) (s : option Z) (c : Z) (zs : list Z) : res (option Z * Z) :=
   match zs with
   | [] => Ok (s, c)
-  | z :: rest => do s' <- i64_op p (s + z); do c' <- i64_op p (c + 1); int_fold p s' c' rest
+  | z :: rest =>
+      let s' := match s with
+                | Some x => if fits_i64 (x + z) then Some (x + z) else None
+                | None => None
+                end in
+      do c' <- i64_op p (c + 1); int_fold p s' c' rest
   end.
+
+Definition sum_value (s : option Z) : sqlvalue := match s with Some x => VInteger x | None => VNull end.
 
 Section Acc.
   Variable temporal : bool -> sqlvalue -> sqlvalue -> res sqlvalue.
 
-  Lemma add_sql_values_int p s v z :
+  Lemma add_sql_values_int s v z :
     int_cell v = true -> int_value v = Some z ->
-    add_sql_values temporal p (VInteger s) v = (do s' <- i64_op p (s + z); Ok (VInteger s')).
+    add_sql_values temporal (VInteger s) v = Ok (if fits_i64 (s + z) then VInteger (s + z) else VNull).
   Proof.
     intros W Hz. unfold add_sql_values, eval_binary_op.
     assert (Hn : is_null v = false) by (destruct v; cbn in *; congruence).
@@ -73,16 +79,18 @@ Section Acc.
     assert (E : exact_pair (VInteger s) v = Some (s, z)).
     { unfold exact_pair. cbn [is_null orb]. rewrite Hn.
       destruct v; cbn [int_value] in Hz; try discriminate; injection Hz as <-; reflexivity. }
-    pose proof (arith3_exact temporal OAdd p _ _ _ _ E) as A. cbn [arith3 z_op] in A. rewrite A.
-    destruct (i64_op p (s + z)) eqn:Eo; cbn [bind]; try reflexivity.
-    exfalso. eapply i64_op_never_err; eassumption.
+    pose proof (arith3_exact temporal OAdd _ _ _ _ E) as A. cbn [arith3 z_op] in A. rewrite A.
+    unfold checked_i64. destruct (fits_i64 (s + z)); reflexivity.
   Qed.
+
+  Lemma add_sql_values_null v : add_sql_values temporal VNull v = Ok VNull.
+  Proof. reflexivity. Qed.
 
   Lemma sum_fold_int p s c seen vs :
     int_col vs = true ->
-    sum_fold temporal p false {| a_sum := VInteger s ; a_count := c ; a_seen := seen |} vs =
+    sum_fold temporal p false {| a_sum := sum_value s ; a_count := c ; a_seen := seen |} vs =
     (do sc <- int_fold p s c (ints_of vs);
-     Ok {| a_sum := VInteger (fst sc) ; a_count := snd sc ; a_seen := seen |}).
+     Ok {| a_sum := sum_value (fst sc) ; a_count := snd sc ; a_seen := seen |}).
   Proof.
     revert s c. induction vs as [|v vs IH]; intros s c H; [reflexivity|].
     cbn [int_col forallb] in H. apply andb_true_iff in H as [Hv Hvs].
@@ -90,80 +98,41 @@ Section Acc.
     destruct (int_value v) as [z|] eqn:Ez.
     - assert (Hn : is_null v = false) by (destruct v; cbn in *; congruence).
       assert (Hnum : is_numeric_value v = true) by (destruct v; cbn in *; try discriminate; reflexivity).
-      rewrite Hn, Hnum. cbn [negb orb]. rewrite (add_sql_values_int p s v z Hv Ez).
-      cbn [int_fold]. destruct (i64_op p (s + z)); cbn [bind]; try reflexivity.
-      destruct (i64_op p (c + 1)); cbn [bind]; try reflexivity. apply IH. exact Hvs.
+      rewrite Hn, Hnum. cbn [negb orb int_fold].
+      destruct s as [x|]; cbn [sum_value].
+      + rewrite (add_sql_values_int x v z Hv Ez). cbn [bind].
+        destruct (i64_op p (c + 1)); cbn [bind]; try reflexivity.
+        destruct (fits_i64 (x + z)); [apply (IH (Some (x + z)))|apply (IH None)]; exact Hvs.
+      + rewrite add_sql_values_null. cbn [bind].
+        destruct (i64_op p (c + 1)); cbn [bind]; try reflexivity. apply (IH None). exact Hvs.
     - assert (Hn : is_null v = true) by (destruct v; cbn in *; congruence).
       rewrite Hn. cbn [orb bind]. apply IH. exact Hvs.
   Qed.
 End Acc.
 
-(** ** The integer loop *)
-Lemma int_fold_release s c zs :
-  exists s' c', int_fold Release s c zs = Ok (s', c') /\
-                s' = (match zs with [] => s | _ => wrap64 (s + zsum zs) end) /\
-                c' = (match zs with [] => c | _ => wrap64 (c + Z.of_nat (length zs)) end).
-Proof.
-  revert s c. induction zs as [|z zs IH]; intros s c; [exists s, c; auto|].
-  cbn [int_fold]. rewrite !i64_op_release. cbn [bind].
-  destruct (IH (wrap64 (s + z)) (wrap64 (c + 1))) as (s' & c' & E & Hs & Hc).
-  exists s', c'. split; [exact E|]. rewrite Hs, Hc. destruct zs as [|z' zs'].
-  - rewrite zsum_cons, zsum_nil. cbn [length]. split; f_equal; lia.
-  - rewrite !wrap64_add_l, (zsum_cons z). split; f_equal; [lia|].
-    change (length (z :: z' :: zs')) with (S (length (z' :: zs'))). lia.
-Qed.
-
-Lemma int_fold_debug_ok s c zs s' c' :
-  int_fold Debug s c zs = Ok (s', c') ->
-  s' = s + zsum zs /\ c' = c + Z.of_nat (length zs) /\ prefixes_fit s zs = true.
-Proof.
-  revert s c. induction zs as [|z zs IH]; intros s c H.
-  - injection H as <- <-. cbn. repeat split; lia.
-  - cbn [int_fold] in H.
-    destruct (i64_op Debug (s + z)) eqn:E1; cbn [bind] in H; try discriminate.
-    destruct (i64_op Debug (c + 1)) eqn:E2; cbn [bind] in H; try discriminate.
-    apply i64_op_debug_ok in E1 as [-> F1]. apply i64_op_debug_ok in E2 as [-> F2].
-    apply IH in H as (-> & -> & Hp). cbn [prefixes_fit]. rewrite F1, Hp. rewrite zsum_cons.
-    repeat split; try lia. change (length (z :: zs)) with (S (length zs)). lia.
-Qed.
-
-Lemma int_fold_no_overflow p s c zs :
-  prefixes_fit s zs = true -> 0 <= c -> c + Z.of_nat (length zs) < 2 ^ 63 ->
-  int_fold p s c zs = Ok (s + zsum zs, c + Z.of_nat (length zs)).
-Proof.
-  revert s c. induction zs as [|z zs IH]; intros s c Hp Hc Hl.
-  - cbn. f_equal. f_equal; lia.
-  - cbn [prefixes_fit] in Hp. apply andb_true_iff in Hp as [F Hp].
-    change (length (z :: zs)) with (S (length zs)) in *.
-    cbn [int_fold]. rewrite (i64_op_fits p _ F). cbn [bind].
-    rewrite i64_op_fits by (apply fits_i64_iff; lia). cbn [bind].
-    rewrite IH by (try assumption; lia). rewrite zsum_cons. f_equal. f_equal; lia.
-Qed.
-
-Lemma int_fold_never_err p s c zs e : int_fold p s c zs <> Err e.
-Proof.
-  revert s c. induction zs as [|z zs IH]; intros s c; [discriminate|].
-  cbn [int_fold]. destruct (i64_op p (s + z)) eqn:E1; cbn [bind]; [|exfalso; eapply i64_op_never_err; eauto|discriminate].
-  destruct (i64_op p (c + 1)) eqn:E2; cbn [bind]; [apply IH|exfalso; eapply i64_op_never_err; eauto|discriminate].
-Qed.
-
-Lemma int_fold_debug_panic s c zs :
+(** ** The integer loop: the exact sum while every partial sum fits, NULL from the first one that does not *)
+Lemma int_fold_none p c zs :
   0 <= c -> c + Z.of_nat (length zs) < 2 ^ 63 ->
-  (int_fold Debug s c zs = Panic POverflow <-> prefixes_fit s zs = false).
+  int_fold p None c zs = Ok (None, c + Z.of_nat (length zs)).
 Proof.
-  intros Hc Hl. split.
-  - intros H. destruct (prefixes_fit s zs) eqn:E; [|reflexivity].
-    rewrite int_fold_no_overflow in H by assumption. discriminate.
-  - intros H. destruct (int_fold Debug s c zs) as [[s' c']|e|x] eqn:E.
-    + apply int_fold_debug_ok in E as (_ & _ & ?). congruence.
-    + exfalso. eapply int_fold_never_err; eauto.
-    + f_equal. clear H Hc Hl. revert s c E. induction zs as [|z zs IH]; intros s c E; [discriminate|].
-      cbn [int_fold] in E.
-      destruct (i64_op Debug (s + z)) eqn:E1; cbn [bind] in E; try discriminate.
-      * destruct (i64_op Debug (c + 1)) eqn:E2; cbn [bind] in E; try discriminate.
-        -- eapply IH; eassumption.
-        -- injection E as <-. now apply i64_op_panic in E2.
-      * injection E as <-. now apply i64_op_panic in E1.
+  revert c. induction zs as [|z zs IH]; intros c Hc Hl; [cbn; do 2 f_equal; lia|].
+  change (length (z :: zs)) with (S (length zs)) in *. cbn [int_fold].
+  rewrite i64_op_fits by (apply fits_i64_iff; lia). cbn [bind]. rewrite IH by lia. do 2 f_equal. lia.
+Qed.
+
+Lemma int_fold_spec p s c zs :
+  0 <= c -> c + Z.of_nat (length zs) < 2 ^ 63 ->
+  int_fold p (Some s) c zs =
+  Ok (if prefixes_fit s zs then Some (s + zsum zs) else None, c + Z.of_nat (length zs)).
+Proof.
+  revert s c. induction zs as [|z zs IH]; intros s c Hc Hl.
+  - cbn [int_fold prefixes_fit length]. rewrite zsum_nil. f_equal. f_equal; [f_equal; lia|lia].
+  - change (length (z :: zs)) with (S (length zs)) in *. cbn [int_fold prefixes_fit].
+    rewrite i64_op_fits by (apply fits_i64_iff; lia). cbn [bind].
+    destruct (fits_i64 (s + z)); cbn [andb].
+    + rewrite IH by lia. rewrite zsum_cons. f_equal. f_equal; [|lia].
+      destruct (prefixes_fit (s + z) zs); [f_equal; lia|reflexivity].
+    + rewrite int_fold_none by lia. do 2 f_equal. lia.
 Qed.
 
 (** partial sums of non-negative (or non-positive) terms are monotone: the total decides *)
@@ -187,351 +156,119 @@ Section AccTheorems.
   Lemma length_ints_of vs : (length (ints_of vs) <= length vs)%nat.
   Proof. induction vs as [|v vs IH]; cbn [ints_of length]; [lia|]. destruct (int_value v); cbn [length]; lia. Qed.
 
-  (** SUM in the Debug profile: whatever it returns is the exact sum *)
-  Theorem sum_debug_exact vs v :
-    int_col vs = true -> agg_sum temporal Debug false vs = Ok v -> v = exact_sum_value vs.
+  (** SUM over an integer column, in every build: the exact sum when every partial sum (in row order)
+      fits i64, NULL otherwise — never a wrapped value, never a panic *)
+  Theorem sum_exact_or_null p vs :
+    int_col vs = true -> Z.of_nat (length vs) < 2 ^ 63 ->
+    agg_sum temporal p false vs =
+    Ok (if prefixes_fit 0 (ints_of vs) then exact_sum_value vs else VNull).
   Proof.
-    intros Hc H. unfold agg_sum, acc0 in H. rewrite sum_fold_int in H by assumption.
-    destruct (int_fold Debug 0 0 (ints_of vs)) as [[s' c']| |] eqn:E; cbn [bind] in H; try discriminate.
-    injection H as <-. apply int_fold_debug_ok in E as (-> & -> & _).
-    unfold sum_finalize, exact_sum_value. cbn [a_count a_sum fst snd].
+    intros Hc Hl. unfold agg_sum, acc0. change (VInteger 0) with (sum_value (Some 0)).
+    rewrite sum_fold_int by assumption. pose proof (length_ints_of vs).
+    rewrite int_fold_spec by lia. cbn [bind]. unfold sum_finalize, exact_sum_value. cbn [a_count a_sum fst snd].
     destruct (ints_of vs) as [|z zs]; [reflexivity|].
     change (length (z :: zs)) with (S (length zs)).
-    destruct (Z.eqb_spec (0 + Z.of_nat (S (length zs))) 0); [lia|]. f_equal.
+    destruct (Z.eqb_spec (0 + Z.of_nat (S (length zs))) 0); [lia|].
+    destruct (prefixes_fit 0 (z :: zs)); cbn [sum_value]; [rewrite Z.add_0_l|]; reflexivity.
   Qed.
 
-  (** SUM when no partial sum overflows: exact, in both profiles *)
   Theorem sum_no_wrap p vs :
     int_col vs = true -> Z.of_nat (length vs) < 2 ^ 63 -> prefixes_fit 0 (ints_of vs) = true ->
     agg_sum temporal p false vs = Ok (exact_sum_value vs).
-  Proof.
-    intros Hc Hl Hp. unfold agg_sum, acc0. rewrite sum_fold_int by assumption.
-    pose proof (length_ints_of vs).
-    rewrite int_fold_no_overflow by (try assumption; lia). cbn [bind].
-    unfold sum_finalize, exact_sum_value. cbn [a_count a_sum fst snd].
-    destruct (ints_of vs) as [|z zs]; [reflexivity|].
-    change (length (z :: zs)) with (S (length zs)).
-    destruct (Z.eqb_spec (0 + Z.of_nat (S (length zs))) 0); [lia|]. reflexivity.
-  Qed.
+  Proof. intros Hc Hl Hp. rewrite sum_exact_or_null by assumption. now rewrite Hp. Qed.
 
-  (** the Debug build panics exactly when a partial sum overflows *)
-  Theorem sum_debug_panic_iff vs :
+  (** AVG: the same accumulation, then one f64 division; NULL when the sum went out of range *)
+  Theorem avg_exact_or_null p vs :
     int_col vs = true -> Z.of_nat (length vs) < 2 ^ 63 ->
-    (agg_sum temporal Debug false vs = Panic POverflow <-> prefixes_fit 0 (ints_of vs) = false).
-  Proof.
-    intros Hc Hl. unfold agg_sum, acc0. rewrite sum_fold_int by assumption.
-    pose proof (length_ints_of vs).
-    rewrite <- (int_fold_debug_panic 0 0 (ints_of vs)) by lia.
-    destruct (int_fold Debug 0 0 (ints_of vs)) as [[s' c']| |]; cbn [bind]; split; congruence.
-  Qed.
-
-  (** the Release build returns the wrapped sum: silently wrong exactly when the sum does not fit *)
-  Theorem sum_release_wraps vs :
-    int_col vs = true -> Z.of_nat (length vs) < 2 ^ 63 ->
-    agg_sum temporal Release false vs =
-    Ok (match ints_of vs with [] => VNull | zs => VInteger (wrap64 (zsum zs)) end).
-  Proof.
-    intros Hc Hl. unfold agg_sum, acc0. rewrite sum_fold_int by assumption.
-    pose proof (length_ints_of vs) as Hle.
-    destruct (int_fold_release 0 0 (ints_of vs)) as (s' & c' & E & Hs & Hcn). rewrite E. cbn [bind].
-    unfold sum_finalize. cbn [a_count a_sum fst snd]. subst s' c'.
-    destruct (ints_of vs) as [|z zs]; [reflexivity|].
-    rewrite wrap64_id by (apply fits_i64_iff; pows; lia).
-    change (length (z :: zs)) with (S (length zs)) in *.
-    destruct (Z.eqb_spec (0 + Z.of_nat (S (length zs))) 0); [lia|]. reflexivity.
-  Qed.
-  (** AVG over an integer column: the same accumulation, then one f64 division *)
-  Theorem avg_debug_exact vs v :
-    int_col vs = true -> agg_avg temporal Debug false vs = Ok v ->
-    v = match ints_of vs with
-        | [] => VNull
-        | zs => VNumeric (fdiv b64 (f_of_Z b64 (zsum zs)) (f_of_Z b64 (Z.of_nat (length zs))))
-        end.
-  Proof.
-    intros Hc H. unfold agg_avg, acc0 in H. rewrite sum_fold_int in H by assumption.
-    destruct (int_fold Debug 0 0 (ints_of vs)) as [[s' c']| |] eqn:E; cbn [bind] in H; try discriminate.
-    injection H as <-. apply int_fold_debug_ok in E as (-> & -> & _).
-    unfold avg_finalize. cbn [a_count a_sum fst snd sql_value_to_f64].
-    destruct (ints_of vs) as [|z zs]; [reflexivity|].
-    change (length (z :: zs)) with (S (length zs)).
-    destruct (Z.eqb_spec (0 + Z.of_nat (S (length zs))) 0); [lia|]. rewrite !Z.add_0_l. reflexivity.
-  Qed.
-
-  Theorem avg_no_wrap p vs :
-    int_col vs = true -> Z.of_nat (length vs) < 2 ^ 63 -> prefixes_fit 0 (ints_of vs) = true ->
     agg_avg temporal p false vs =
-    Ok match ints_of vs with
-       | [] => VNull
-       | zs => VNumeric (fdiv b64 (f_of_Z b64 (zsum zs)) (f_of_Z b64 (Z.of_nat (length zs))))
-       end.
+    Ok (match ints_of vs with
+        | [] => VNull
+        | zs => if prefixes_fit 0 zs
+                then VNumeric (fdiv b64 (f_of_Z b64 (zsum zs)) (f_of_Z b64 (Z.of_nat (length zs))))
+                else VNull
+        end).
   Proof.
-    intros Hc Hl Hp. unfold agg_avg, acc0. rewrite sum_fold_int by assumption.
-    pose proof (length_ints_of vs).
-    rewrite int_fold_no_overflow by (try assumption; lia). cbn [bind].
-    unfold avg_finalize. cbn [a_count a_sum fst snd sql_value_to_f64].
+    intros Hc Hl. unfold agg_avg, acc0. change (VInteger 0) with (sum_value (Some 0)).
+    rewrite sum_fold_int by assumption. pose proof (length_ints_of vs).
+    rewrite int_fold_spec by lia. cbn [bind]. unfold avg_finalize. cbn [a_count a_sum fst snd].
     destruct (ints_of vs) as [|z zs]; [reflexivity|].
-    change (length (z :: zs)) with (S (length zs)).
-    destruct (Z.eqb_spec (0 + Z.of_nat (S (length zs))) 0); [lia|]. rewrite !Z.add_0_l. reflexivity.
+    change (length (z :: zs)) with (S (length zs)) in *.
+    destruct (Z.eqb_spec (0 + Z.of_nat (S (length zs))) 0); [lia|].
+    destruct (prefixes_fit 0 (z :: zs)); cbn [sum_value sql_value_to_f64]; [rewrite !Z.add_0_l|]; reflexivity.
   Qed.
 End AccTheorems.
 
-(** [SELECT SUM(a)] over the rows 9223372036854775807 and 1 *)
-Lemma sum_no_wrap_refuted :
-  agg_sum no_temporal Debug false [VInteger i64_max; VInteger 1] = Panic POverflow /\
-  agg_sum no_temporal Release false [VInteger i64_max; VInteger 1] = Ok (VInteger i64_min).
-Proof. vm_compute. auto. Qed.
+(** [SELECT SUM(a)] over the rows 9223372036854775807 and 1: NULL in every build (used to panic / wrap) *)
+Lemma sum_former_witnesses :
+  agg_sum no_temporal Debug false [VInteger i64_max; VInteger 1] = Ok VNull /\
+  agg_sum no_temporal Release false [VInteger i64_max; VInteger 1] = Ok VNull /\
+  agg_sum no_temporal Release false [VInteger i64_max; VInteger 1; VInteger (-5)] = Ok VNull.
+Proof. vm_compute. repeat split. Qed.
 
 Example sum_example :
   agg_sum no_temporal Release false [VInteger 5; VNull; VSmallint (-7); VBigint 40] = Ok (VInteger 38) /\
   prefixes_fit 0 (ints_of [VInteger 5; VNull; VSmallint (-7); VBigint 40]) = true /\
   agg_sum no_temporal Debug true [VInteger 5; VInteger 5; VNull] = Ok (VInteger 5) /\
   agg_avg no_temporal Debug false [VInteger 1; VInteger 2] = Ok (VNumeric 4609434218613702656).
+Proof. vm_compute. repeat split. Qed.
+
+(** * simd_sum_i64 (saturating) and simd_sum_i64_wide (exact) *)
+Lemma simd_sum_wide_exact col : simd_sum_i64_wide col = zsum col.
+Proof. reflexivity. Qed.
+
+Theorem simd_sum_exact col : fits_i64 (zsum col) = true -> simd_sum_i64 col = zsum col.
+Proof. intros H. unfold simd_sum_i64. rewrite simd_sum_wide_exact, H. reflexivity. Qed.
+
+Theorem simd_sum_saturates col :
+  fits_i64 (zsum col) = false -> simd_sum_i64 col = (if zsum col <? 0 then i64_min else i64_max).
+Proof. intros H. unfold simd_sum_i64. rewrite simd_sum_wide_exact, H. reflexivity. Qed.
+
+Lemma simd_sum_former_witness :
+  simd_sum_i64 [i64_max; 1; -5; 0] = zsum [i64_max; 1; -5; 0] /\ simd_sum_i64 [i64_max; 1] = i64_max.
 Proof. vm_compute. auto. Qed.
 
-(** * simd_sum_i64 *)
-Lemma list_ind4 {A} (P : list A -> Prop) :
-  (forall l, (length l < 4)%nat -> P l) ->
-  (forall a b c d r, P r -> P (a :: b :: c :: d :: r)) ->
-  forall l, P l.
-Proof.
-  intros Hs H4.
-  assert (G : forall n l, (length l <= n)%nat -> P l).
-  { induction n as [|n IH]; intros l Hl.
-    - apply Hs. lia.
-    - destruct l as [|a [|b [|c [|d r]]]]; try (apply Hs; cbn; lia).
-      apply H4. apply IH. cbn [length] in Hl. lia. }
-  intros l. apply (G (length l)). lia.
-Qed.
-
-Lemma scalar_sum_release s col : scalar_sum_i64 Release s col = Ok (match col with [] => s | _ => wrap64 (s + zsum col) end).
-Proof.
-  revert s. induction col as [|x col IH]; intros s; [reflexivity|].
-  cbn [scalar_sum_i64]. rewrite i64_op_release. cbn [bind]. rewrite IH.
-  destruct col as [|y col']; [cbn; f_equal; f_equal; lia|].
-  rewrite wrap64_add_l, (zsum_cons x). f_equal. f_equal. lia.
-Qed.
-
-Lemma scalar_sum_debug_ok s col v : scalar_sum_i64 Debug s col = Ok v -> v = s + zsum col.
-Proof.
-  revert s. induction col as [|x col IH]; intros s H; [injection H as <-; cbn; lia|].
-  cbn [scalar_sum_i64] in H. destruct (i64_op Debug (s + x)) eqn:E; cbn [bind] in H; try discriminate.
-  apply i64_op_debug_ok in E as [-> _]. apply IH in H. rewrite zsum_cons. lia.
-Qed.
-
-Lemma scalar_sum_nonneg p s col :
-  0 <= s -> Forall (fun z => 0 <= z) col -> fits_i64 (s + zsum col) = true ->
-  scalar_sum_i64 p s col = Ok (s + zsum col).
-Proof.
-  revert s. induction col as [|x col IH]; intros s Hs Hall Hf; [cbn; f_equal; lia|].
-  inversion Hall as [|? ? Hx Hcol]; subst. rewrite zsum_cons in *.
-  pose proof (zsum_nonneg _ Hcol) as Hnn.
-  apply fits_i64_iff in Hf. cbn [scalar_sum_i64].
-  rewrite i64_op_fits by (apply fits_i64_iff; pows; lia). cbn [bind].
-  rewrite IH; [f_equal; lia|lia|assumption|apply fits_i64_iff; lia].
-Qed.
-
-(** wrapped arithmetic is a ring homomorphism: the Release result of [simd_sum_i64] is the wrap of
-    the exact sum, whatever the chunking *)
-Lemma simd_sum_from_release s col :
-  fits_i64 s = true -> simd_sum_i64_from Release s col = Ok (wrap64 (s + zsum col)).
-Proof.
-  revert s. induction col as [l Hlen | a b c d r IHcol] using list_ind4; intros s Hs.
-  - assert (E : simd_sum_i64_from Release s l = scalar_sum_i64 Release s l).
-    { destruct l as [|a [|b [|c [|d r]]]]; try reflexivity. cbn [length] in Hlen. lia. }
-    rewrite E, scalar_sum_release. destruct l; [cbn; now rewrite Z.add_0_r, wrap64_id|reflexivity].
-  - cbn [simd_sum_i64_from]. rewrite !i64_op_release. cbn [bind]. rewrite i64_op_release. cbn [bind].
-    rewrite i64_op_release. cbn [bind]. rewrite i64_op_release. cbn [bind].
-    rewrite IHcol by apply wrap64_fits. f_equal. rewrite !zsum_cons. apply wrap64_ext.
-    unwrap1 k1. unwrap1 k2. unwrap1 k3. unwrap1 k4. exists (k1 + k2 + k3 + k4). lia.
-Qed.
-
-Theorem simd_sum_release col : simd_sum_i64 Release col = Ok (wrap64 (zsum col)).
-Proof. unfold simd_sum_i64. rewrite simd_sum_from_release by reflexivity. reflexivity. Qed.
-
-Lemma simd_sum_from_debug_ok s col v : simd_sum_i64_from Debug s col = Ok v -> v = s + zsum col.
-Proof.
-  revert s. induction col as [l Hlen | a b c d r IHcol] using list_ind4; intros s Hv.
-  - assert (E : simd_sum_i64_from Debug s l = scalar_sum_i64 Debug s l).
-    { destruct l as [|a [|b [|c [|d r]]]]; try reflexivity. cbn [length] in Hlen. lia. }
-    rewrite E in Hv. now apply scalar_sum_debug_ok.
-  - cbn [simd_sum_i64_from] in Hv.
-    destruct (i64_op Debug (a + b)) eqn:E1; cbn [bind] in Hv; try discriminate.
-    destruct (i64_op Debug (v0 + c)) eqn:E2; cbn [bind] in Hv; try discriminate.
-    destruct (i64_op Debug (v1 + d)) eqn:E3; cbn [bind] in Hv; try discriminate.
-    destruct (i64_op Debug (s + v2)) eqn:E4; cbn [bind] in Hv; try discriminate.
-    apply i64_op_debug_ok in E1 as [-> _]. apply i64_op_debug_ok in E2 as [-> _].
-    apply i64_op_debug_ok in E3 as [-> _]. apply i64_op_debug_ok in E4 as [-> _].
-    apply IHcol in Hv. rewrite !zsum_cons. lia.
-Qed.
-
-Theorem simd_sum_debug_exact col v : simd_sum_i64 Debug col = Ok v -> v = zsum col.
-Proof. unfold simd_sum_i64. intros H. apply simd_sum_from_debug_ok in H. lia. Qed.
-
-Lemma simd_sum_never_err p s col e : simd_sum_i64_from p s col <> Err e.
-Proof.
-  assert (Sc : forall s l, scalar_sum_i64 p s l <> Err e).
-  { intros s' l. revert s'. induction l as [|x l IH]; intros s'; [discriminate|].
-    cbn [scalar_sum_i64]. destruct (i64_op p (s' + x)) eqn:E; cbn [bind];
-      [apply IH|exfalso; eapply i64_op_never_err; eauto|discriminate]. }
-  revert s. induction col as [l Hlen | a b c d r IHcol] using list_ind4; intros s.
-  - destruct l as [|a [|b [|c [|d r]]]]; try apply Sc. cbn [length] in Hlen. lia.
-  - cbn [simd_sum_i64_from].
-    repeat match goal with
-           | |- bind (i64_op ?q ?z) _ <> _ =>
-               let E := fresh "E" in destruct (i64_op q z) eqn:E; cbn [bind];
-               [|exfalso; eapply i64_op_never_err; eauto|discriminate]
-           end. apply IHcol.
-Qed.
-
-(** non-negative terms whose sum fits: no intermediate overflow, both profiles *)
-Lemma simd_sum_from_nonneg p s col :
-  0 <= s -> Forall (fun z => 0 <= z) col -> fits_i64 (s + zsum col) = true ->
-  simd_sum_i64_from p s col = Ok (s + zsum col).
-Proof.
-  revert s. induction col as [l Hlen | a b c d r IHcol] using list_ind4; intros s Hs Hall Hf.
-  - assert (E : simd_sum_i64_from p s l = scalar_sum_i64 p s l).
-    { destruct l as [|a [|b [|c [|d r]]]]; try reflexivity. cbn [length] in Hlen. lia. }
-    rewrite E. now apply scalar_sum_nonneg.
-  - inversion Hall as [|? ? Ha Hall1]; subst. inversion Hall1 as [|? ? Hb Hall2]; subst.
-    inversion Hall2 as [|? ? Hcc Hall3]; subst. inversion Hall3 as [|? ? Hd Hall4]; subst.
-    pose proof (zsum_nonneg _ Hall4) as Hnn.
-    rewrite !zsum_cons in *. apply fits_i64_iff in Hf. cbn [simd_sum_i64_from].
-    rewrite (i64_op_fits p (a + b)) by (apply fits_i64_iff; pows; lia). cbn [bind].
-    rewrite (i64_op_fits p (a + b + c)) by (apply fits_i64_iff; pows; lia). cbn [bind].
-    rewrite (i64_op_fits p (a + b + c + d)) by (apply fits_i64_iff; pows; lia). cbn [bind].
-    rewrite (i64_op_fits p (s + (a + b + c + d))) by (apply fits_i64_iff; pows; lia). cbn [bind].
-    rewrite IHcol; [f_equal; lia|lia|assumption|apply fits_i64_iff; lia].
-Qed.
-
-Theorem simd_sum_nonneg p col :
-  Forall (fun z => 0 <= z) col -> fits_i64 (zsum col) = true -> simd_sum_i64 p col = Ok (zsum col).
-Proof. intros Ha Hf. unfold simd_sum_i64. rewrite simd_sum_from_nonneg; auto; lia. Qed.
-
-(** the Debug build can panic on an INTERMEDIATE chunk sum although the total fits *)
-Lemma simd_sum_intermediate_overflow_refuted :
-  simd_sum_i64 Debug [i64_max; 1; -5; 0] = Panic POverflow /\
-  fits_i64 (zsum [i64_max; 1; -5; 0]) = true /\
-  simd_sum_i64 Release [i64_max; 1; -5; 0] = Ok (zsum [i64_max; 1; -5; 0]).
-Proof. vm_compute. auto. Qed.
-
-(** * simd_aggregate_i64 (SUM) *)
+(** * simd_aggregate_i64: exact for every integer column *)
 Lemma extract_i64_int_cell v : int_cell v = true -> extract_i64 v = Ok (int_value v).
 Proof. destruct v; cbn; try discriminate; reflexivity. Qed.
 
-(** Release: the loop keeps [sum + zsum batch] congruent to the exact running total *)
-Lemma simd_agg_loop_release bsize batch blen sum count vs :
-  int_col vs = true -> fits_i64 sum = true ->
-  exists batch' sum' count',
-    simd_agg_i64_loop Release bsize batch blen sum count vs = Ok (batch', sum', count') /\
-    fits_i64 sum' = true /\
-    wrap64 (sum' + zsum batch') = wrap64 (sum + zsum batch + zsum (ints_of vs)) /\
-    wrap64 count' = wrap64 (count + Z.of_nat (length (ints_of vs))).
+Lemma simd_agg_loop_exact p bsize batch blen sum count vs :
+  int_col vs = true -> 0 <= count -> count + Z.of_nat (length vs) < 2 ^ 63 ->
+  exists batch' sum',
+    simd_agg_i64_loop p bsize batch blen sum count vs = Ok (batch', sum', count + Z.of_nat (length (ints_of vs))) /\
+    sum' + zsum batch' = sum + zsum batch + zsum (ints_of vs).
 Proof.
-  revert batch blen sum count. induction vs as [|v vs IH]; intros batch blen sum count Hc Hs.
-  - exists batch, sum, count. cbn. repeat split; auto; f_equal; lia.
+  revert batch blen sum count. induction vs as [|v vs IH]; intros batch blen sum count Hc H0 Hl.
+  - exists batch, sum. cbn [simd_agg_i64_loop ints_of length]. rewrite zsum_nil. split; [do 2 f_equal; lia|lia].
   - cbn [int_col forallb] in Hc. apply andb_true_iff in Hc as [Hv Hvs].
+    change (length (v :: vs)) with (S (length vs)) in Hl.
     cbn [simd_agg_i64_loop ints_of]. rewrite (extract_i64_int_cell v Hv). cbn [bind].
     destruct (int_value v) as [z|].
-    + rewrite i64_op_release. cbn [bind]. destruct (Nat.leb bsize (S blen)).
-      * rewrite simd_sum_release. cbn [bind]. rewrite i64_op_release. cbn [bind].
-        destruct (IH [] O (wrap64 (sum + wrap64 (zsum (rev (z :: batch))))) (wrap64 (count + 1)) Hvs (wrap64_fits _))
-          as (b' & s' & c' & E & F & Hsum & Hcnt).
-        exists b', s', c'. split; [exact E|]. split; [exact F|]. split.
-        -- rewrite Hsum, zsum_nil, zsum_rev, !zsum_cons. apply wrap64_ext.
-           unwrap1 k1. unwrap1 k2. exists (k1 + k2). lia.
-        -- rewrite Hcnt. change (length (z :: ints_of vs)) with (S (length (ints_of vs))).
-           apply wrap64_ext. unwrap1 k1. exists k1. lia.
-      * destruct (IH (z :: batch) (S blen) sum (wrap64 (count + 1)) Hvs Hs) as (b' & s' & c' & E & F & Hsum & Hcnt).
-        exists b', s', c'. split; [exact E|]. split; [exact F|]. split.
-        -- rewrite Hsum, !zsum_cons. f_equal. lia.
-        -- rewrite Hcnt. change (length (z :: ints_of vs)) with (S (length (ints_of vs))).
-           apply wrap64_ext. unwrap1 k1. exists k1. lia.
-    + apply IH; assumption.
+    + rewrite i64_op_fits by (apply fits_i64_iff; lia). cbn [bind].
+      change (length (z :: ints_of vs)) with (S (length (ints_of vs))).
+      destruct (Nat.leb bsize (S blen)).
+      * destruct (IH [] O (sum + simd_sum_i64_wide (rev (z :: batch))) (count + 1) Hvs ltac:(lia) ltac:(lia))
+          as (b' & s' & E & Hs).
+        exists b', s'. split; [rewrite E; do 2 f_equal; lia|].
+        rewrite Hs, simd_sum_wide_exact, zsum_rev, zsum_nil, !zsum_cons. lia.
+      * destruct (IH (z :: batch) (S blen) sum (count + 1) Hvs ltac:(lia) ltac:(lia)) as (b' & s' & E & Hs).
+        exists b', s'. split; [rewrite E; do 2 f_equal; lia|]. rewrite Hs, !zsum_cons. lia.
+    + destruct (IH batch blen sum count Hvs H0 ltac:(lia)) as (b' & s' & E & Hs). exists b', s'. auto.
 Qed.
 
-Theorem simd_aggregate_release_wraps bsize vs :
+Theorem simd_aggregate_exact p bsize vs :
   int_col vs = true -> Z.of_nat (length vs) < 2 ^ 63 ->
-  simd_aggregate_i64 Release bsize AggSum vs =
-  Ok (match ints_of vs with [] => VNull | zs => VDouble (f_of_Z b64 (wrap64 (zsum zs))) end).
+  simd_aggregate_i64 p bsize AggSum vs =
+  Ok (match ints_of vs with [] => VNull | zs => VDouble (f_of_Z b64 (zsum zs)) end).
 Proof.
   intros Hc Hl. unfold simd_aggregate_i64.
-  destruct (simd_agg_loop_release bsize [] O 0 0 vs Hc eq_refl) as (b' & s' & c' & E & F & Hsum & Hcnt).
-  rewrite E. cbn [bind].
-  assert (Hfin : (match b' with
-                  | [] => Ok s'
-                  | _ :: _ => do bs <- simd_sum_i64 Release (rev b'); i64_op Release (s' + bs)
-                  end) = Ok (wrap64 (zsum (ints_of vs)))).
-  { cbn [zsum fold_right] in Hsum. rewrite !Z.add_0_l in Hsum. destruct b' as [|x b''].
-    - cbn [zsum fold_right] in Hsum. rewrite Z.add_0_r, wrap64_id in Hsum by assumption. now rewrite Hsum.
-    - rewrite simd_sum_release. cbn [bind]. rewrite i64_op_release, wrap64_add_r, zsum_rev. now rewrite Hsum. }
-  rewrite Hfin. cbn [bind].
-  pose proof (length_ints_of vs) as Hle. rewrite Z.add_0_l in Hcnt.
-  assert (Hc' : wrap64 c' = Z.of_nat (length (ints_of vs))).
-  { rewrite Hcnt. apply wrap64_id. apply fits_i64_iff. pows. lia. }
-  (* [count] itself is a wrapped value produced by i64_op, hence within range; we only need its zero test *)
-  destruct (ints_of vs) as [|z zs] eqn:Ei.
-  - assert (c' = 0).
-    { clear -E Ei Hc. revert E.
-      assert (G : forall batch blen sum count b s c,
-                 simd_agg_i64_loop Release bsize batch blen sum count vs = Ok (b, s, c) -> c = count).
-      { revert Hc Ei. induction vs as [|v vs IH]; intros Hc Ei batch blen sum count b s c H.
-        - now injection H.
-        - cbn [int_col forallb] in Hc. apply andb_true_iff in Hc as [Hv Hvs].
-          cbn [simd_agg_i64_loop] in H. rewrite (extract_i64_int_cell v Hv) in H. cbn [bind] in H.
-          cbn [ints_of] in Ei. destruct (int_value v); [discriminate|]. eapply IH; eassumption. }
-      intros E. symmetry. eapply G in E. lia. }
-    subst c'. reflexivity.
-  - destruct (Z.eqb_spec c' 0) as [->|Hn]; [|reflexivity].
-    exfalso. change (length (z :: zs)) with (S (length zs)) in Hc'. cbn in Hc'. lia.
-Qed.
-
-(** Debug: whatever the loop returns accounts exactly for every value *)
-Lemma simd_agg_loop_debug_ok bsize batch blen sum count vs b' s' c' :
-  int_col vs = true ->
-  simd_agg_i64_loop Debug bsize batch blen sum count vs = Ok (b', s', c') ->
-  s' + zsum b' = sum + zsum batch + zsum (ints_of vs) /\ c' = count + Z.of_nat (length (ints_of vs)).
-Proof.
-  revert batch blen sum count. induction vs as [|v vs IH]; intros batch blen sum count Hc H.
-  - injection H as <- <- <-. cbn. lia.
-  - cbn [int_col forallb] in Hc. apply andb_true_iff in Hc as [Hv Hvs].
-    cbn [simd_agg_i64_loop ints_of] in *. rewrite (extract_i64_int_cell v Hv) in H. cbn [bind] in H.
-    destruct (int_value v) as [z|]; [|now apply IH in H].
-    destruct (i64_op Debug (count + 1)) eqn:E1; cbn [bind] in H; try discriminate.
-    apply i64_op_debug_ok in E1 as [-> _].
-    change (length (z :: ints_of vs)) with (S (length (ints_of vs))). rewrite zsum_cons.
-    destruct (Nat.leb bsize (S blen)).
-    + destruct (simd_sum_i64 Debug (rev (z :: batch))) eqn:E2; cbn [bind] in H; try discriminate.
-      apply simd_sum_debug_exact in E2. subst v0.
-      destruct (i64_op Debug (sum + zsum (rev (z :: batch)))) eqn:E3; cbn [bind] in H; try discriminate.
-      apply i64_op_debug_ok in E3 as [-> _].
-      apply IH in H as [Hs Hcn]; [|assumption]. rewrite zsum_rev, zsum_cons in Hs. cbn [zsum fold_right] in Hs. lia.
-    + apply IH in H as [Hs Hcn]; [|assumption]. rewrite zsum_cons in Hs. lia.
-Qed.
-
-Theorem simd_aggregate_debug_exact bsize vs v :
-  int_col vs = true ->
-  simd_aggregate_i64 Debug bsize AggSum vs = Ok v ->
-  v = match ints_of vs with [] => VNull | zs => VDouble (f_of_Z b64 (zsum zs)) end.
-Proof.
-  intros Hc H. unfold simd_aggregate_i64 in H.
-  destruct (simd_agg_i64_loop Debug bsize [] O 0 0 vs) as [[[b' s'] c']| |] eqn:E; cbn [bind] in H; try discriminate.
-  apply simd_agg_loop_debug_ok in E as [Hs Hcn]; [|assumption].
-  cbn [zsum fold_right] in Hs. rewrite !Z.add_0_l in *.
-  assert (Hfin : forall w, (match b' with
-                  | [] => Ok s'
-                  | _ :: _ => do bs <- simd_sum_i64 Debug (rev b'); i64_op Debug (s' + bs)
-                  end) = Ok w -> w = zsum (ints_of vs)).
-  { intros w. destruct b' as [|x b''].
-    - intros [= <-]. cbn [zsum fold_right] in Hs. lia.
-    - destruct (simd_sum_i64 Debug (rev (x :: b''))) eqn:E2; cbn [bind]; try discriminate.
-      apply simd_sum_debug_exact in E2. subst v0. intros E3. apply i64_op_debug_ok in E3 as [-> _].
-      rewrite zsum_rev. lia. }
-  destruct (match b' with [] => Ok s' | _ :: _ => _ end) as [w| |] eqn:E4; cbn [bind] in H; try discriminate.
-  specialize (Hfin w eq_refl). subst w c'.
-  destruct (ints_of vs) as [|z zs].
-  - cbn in H. now injection H.
-  - change (length (z :: zs)) with (S (length zs)) in H.
-    destruct (Z.eqb_spec (Z.of_nat (S (length zs))) 0); [lia|]. now injection H.
+  destruct (simd_agg_loop_exact p bsize [] O 0 0 vs Hc ltac:(lia) ltac:(lia)) as (b' & s' & E & Hs).
+  rewrite E. cbn [bind]. rewrite zsum_nil, !Z.add_0_l in Hs.
+  assert (Hfin : (match b' with [] => s' | _ :: _ => s' + simd_sum_i64_wide (rev b') end) = zsum (ints_of vs)).
+  { destruct b'; [rewrite zsum_nil in Hs; lia|]. rewrite simd_sum_wide_exact, zsum_rev. lia. }
+  rewrite Hfin. rewrite Z.add_0_l.
+  destruct (ints_of vs) as [|z zs]; [reflexivity|].
+  change (length (z :: zs)) with (S (length zs)).
+  destruct (Z.eqb_spec (Z.of_nat (S (length zs))) 0); [lia|]. reflexivity.
 Qed.
 
 (** * the f64 paths (simd_aggregate_f64, compute_sum) add in floating point: no panic, whatever the values *)
@@ -559,6 +296,20 @@ Proof.
   - exfalso. eapply simd_agg_f64_loop_no_panic; [| |exact E]; lia.
 Qed.
 
+Lemma simd_agg_i64_loop_no_panic p bsize batch blen sum count vs x :
+  0 <= count -> count + Z.of_nat (length vs) < 2 ^ 63 ->
+  simd_agg_i64_loop p bsize batch blen sum count vs <> Panic x.
+Proof.
+  revert batch blen sum count. induction vs as [|v vs IH]; intros batch blen sum count H0 Hl; [discriminate|].
+  change (length (v :: vs)) with (S (length vs)) in Hl.
+  cbn [simd_agg_i64_loop]. destruct (extract_i64 v) as [[z|]| |] eqn:E; cbn [bind].
+  - rewrite i64_op_fits by (apply fits_i64_iff; lia). cbn [bind].
+    destruct (Nat.leb bsize (S blen)); apply IH; lia.
+  - apply IH; lia.
+  - discriminate.
+  - destruct v; discriminate.
+Qed.
+
 Lemma compute_sum_loop_no_panic sum count vs x : compute_sum_loop sum count vs <> Panic x.
 Proof.
   revert sum count. induction vs as [|v vs IH]; intros sum count; [discriminate|].
@@ -571,26 +322,27 @@ Proof.
   exfalso. eapply compute_sum_loop_no_panic; eassumption.
 Qed.
 
-(** the columnar dispatcher: an integer first value within the first 100 rows selects the i64 path;
-    consequently every panic of a columnar SUM/AVG is an i64 overflow of the simd path *)
-Theorem columnar_aggregate_panic_only_i64_path p bsize op vs x :
-  Z.of_nat (length vs) < 2 ^ 63 ->
-  columnar_aggregate p bsize op vs = Panic x ->
-  can_use_simd 100 vs = Some true /\ simd_aggregate_i64 p bsize op vs = Panic x.
+(** the columnar SUM / AVG of a column of ANY values never panics *)
+Theorem columnar_aggregate_never_panics p bsize op vs x :
+  Z.of_nat (length vs) < 2 ^ 63 -> columnar_aggregate p bsize op vs <> Panic x.
 Proof.
-  intros Hl. unfold columnar_aggregate. destruct (can_use_simd 100 vs) as [[|]|]; intros H.
-  - auto.
-  - exfalso. eapply simd_aggregate_f64_no_panic; eassumption.
-  - exfalso. destruct op.
-    + eapply compute_sum_no_panic; eassumption.
-    + unfold compute_avg in H. destruct (compute_sum vs) as [w| |] eqn:E; cbn [bind] in H; try discriminate.
+  intros Hl. unfold columnar_aggregate. destruct (can_use_simd 100 vs) as [[|]|].
+  - unfold simd_aggregate_i64.
+    destruct (simd_agg_i64_loop p bsize [] 0 0 0 vs) as [[[b s] c]| |] eqn:E; cbn [bind].
+    + destruct (c =? 0); [discriminate|]. destruct op; discriminate.
+    + discriminate.
+    + exfalso. eapply simd_agg_i64_loop_no_panic; [| |exact E]; lia.
+  - apply simd_aggregate_f64_no_panic. exact Hl.
+  - destruct op.
+    + apply compute_sum_no_panic.
+    + unfold compute_avg. destruct (compute_sum vs) as [w| |] eqn:E; cbn [bind]; try discriminate.
       * destruct w; try discriminate. destruct (0 <? _); discriminate.
-      * eapply compute_sum_no_panic; eassumption.
+      * exfalso. eapply compute_sum_no_panic; eassumption.
 Qed.
 
-Lemma simd_aggregate_refuted :
-  simd_aggregate_i64 Debug 1024 AggSum [VInteger i64_max; VInteger 1] = Panic POverflow /\
-  simd_aggregate_i64 Release 1024 AggSum [VInteger i64_max; VInteger 1] = Ok (VDouble 14114281232179134464). (* -2^63 as f64 *)
+Lemma simd_aggregate_former_witness :
+  simd_aggregate_i64 Debug 1024 AggSum [VInteger i64_max; VInteger 1] = Ok (VDouble 4890909195324358656) /\   (* 2^63 *)
+  simd_aggregate_i64 Release 1024 AggSum [VInteger i64_max; VInteger 1] = Ok (VDouble 4890909195324358656).
 Proof. vm_compute. auto. Qed.
 
 Example simd_aggregate_example :
